@@ -52,6 +52,7 @@ def cases(tier, seed):
             out.append(f"series-utc|{z}|{feed}|daily")
         out.append(f"series-06|{z}|60|daily")
     out.append("series-06|US/Pacific|30|daily")
+    out.append("series-06g|US/Pacific|60|daily")  # meter read at 06:00 and one interior meter day without a usable reading
     if tier != "thorough":  # a 25-hour day in the quick tier as well
         out += ["frame|Europe/London|60|daily", "series-06|Europe/London|60|daily"]
     if tier == "thorough":
@@ -70,7 +71,7 @@ def layouts(n_day):
     return {"0": 0, "1": 1, "half-1": n_day - half - 1 if False else n_day - (half + 1), "half": n_day - half, "half+1": n_day - half + 1}
 
 
-def build(entry, zone, feed, fam, days, missing_first, sym, env=None):
+def build(entry, zone, feed, fam, days, missing_first, sym, env=None, meter_missing=None):
     """returns (data object, feed index, nan positions).  `missing_first` = number of readings missing at the start of day 1"""
     idx = feed_index(zone, feed, days)
     byday = D.local_days(idx)
@@ -86,20 +87,21 @@ def build(entry, zone, feed, fam, days, missing_first, sym, env=None):
         self._verif_counts = sufficiency_df
         return orig(self, sufficiency_df)
     with patched(cls, _check_data_sufficiency=spy):
-        return _build(cls, entry, zone, feed, days, idx, nan_pos, temp, sym, env)
+        return _build(cls, entry, zone, feed, days, idx, nan_pos, temp, sym, env, meter_missing)
 
 
-def _build(cls, entry, zone, feed, days, idx, nan_pos, temp, sym, env):
+def _build(cls, entry, zone, feed, days, idx, nan_pos, temp, sym, env, meter_missing=None):
     n = len(idx)
     if entry == "frame":
         obs = D.col("o", n, (), sym, env)
         df = pd.DataFrame({"observed": obs, "temperature": temp}, index=idx)
         d = cls(df, is_electricity_data=False)
     else:
-        hour = 6 if entry == "series-06" else 0
+        hour = 6 if entry.startswith("series-06") else 0
         s0 = pd.Timestamp(START[zone]).tz_localize(zone) + pd.Timedelta(hours=hour)
         midx = pd.DatetimeIndex([(pd.Timestamp(START[zone]) + pd.Timedelta(days=k, hours=hour)).tz_localize(zone) for k in range(days + (0 if hour else 0))])
-        meter = pd.Series(D.col("o", len(midx), (), sym, env), index=midx, name="observed")
+        # a meter day without a usable reading (meter_missing = its position) must not move any day's temperature
+        meter = pd.Series(D.col("o", len(midx), () if meter_missing is None else (meter_missing,), sym, env), index=midx, name="observed")
         tidx = idx.tz_convert("UTC") if entry == "series-utc" else idx
         ts = pd.Series(temp, index=tidx, name="temperature")
         d = cls.from_series(meter, ts, is_electricity_data=False)
@@ -115,7 +117,7 @@ def meter_day(entry, zone, t):
 def expected_days(entry, zone, idx, nan_pos):
     """independent oracle: start of meter day -> (positions of the feed's readings in that day, present positions, complete?)
     (a day is complete when the feed reaches its end, so that the edge of the feed is not mistaken for missing readings)"""
-    hour = 6 if entry == "series-06" else 0
+    hour = 6 if entry.startswith("series-06") else 0
     loc = idx.tz_convert(zone)
     first = loc[0].tz_localize(None).normalize() + pd.Timedelta(hours=hour)
     out = {}
@@ -161,7 +163,7 @@ def replay_temp(inp):
     import logging
     logging.disable(logging.CRITICAL)
     env = inp["env"]
-    d, idx, nan_pos = build(inp["entry"], inp["zone"], inp["feed"], inp["fam"], inp["days"], inp["missing"], False, env)
+    d, idx, nan_pos = build(inp["entry"], inp["zone"], inp["feed"], inp["fam"], inp["days"], inp["missing"], False, env, inp.get("meter_missing"))
     pr = check_concrete(inp["entry"], inp["zone"], d, idx, nan_pos, env)
     return bool(pr), "; ".join(pr[:3])
 
@@ -173,19 +175,22 @@ def run_case(case: Case, name: str):
     if name.startswith("fp|"):
         return FPF.half_lemma(case, 100, "present/(present+absent) readings of a meter day")
     entry, zone, feed, fam = name.split("|")
-    days = 4 if case.tier == "thorough" else 3
+    days = 5 if entry == "series-06g" else (4 if case.tier == "thorough" else 3)
     idx0 = feed_index(zone, feed, days)
     byday = D.local_days(idx0)
     dates = sorted(byday)
     n_day = len(byday[dates[1]])
     lay = layouts(n_day)
+    if entry == "series-06g":
+        lay = {k: lay[k] for k in ("0", "1")}
     case.inputs = [z3.Real(f"T{i}") for i in range(len(idx0))] + [z3.Real(f"o{i}") for i in range(len(idx0))]
     fid = "C09-mean-divided-by-coverage"
 
     def run():
         which = F.choose("layout", list(lay))
-        d, idx, nan_pos = build(entry, zone, feed, fam, days, lay[which], True)
-        return which, d, idx, nan_pos
+        mm = 2 if entry == "series-06g" else None  # an interior meter day of a 5-day span has no usable reading
+        d, idx, nan_pos = build(entry, zone, feed, fam, days, lay[which], True, None, mm)
+        return which, mm, d, idx, nan_pos
 
     with D.symbolic_dataclasses():
         paths = case.explore(run)
@@ -193,15 +198,16 @@ def run_case(case: Case, name: str):
         if p.outcome != "ret":
             case.rep["harness_errors"].append(f"data class raised {p.value!r} ({name})")
             continue
-        which, d, idx, nan_pos = p.value
-        rp = ("temp", (lambda w: lambda mdl: dict(entry=entry, zone=zone, feed=feed, fam=fam, days=days, missing=lay[w], env=model_env(mdl, case.inputs)))(which))
+        which, mm, d, idx, nan_pos = p.value
+        rp = ("temp", (lambda w, m_: lambda mdl: dict(entry=entry, zone=zone, feed=feed, fam=fam, days=days, missing=lay[w], meter_missing=m_, env=model_env(mdl, case.inputs)))(which, mm))
+        case.regime("meter day without a usable reading", mm is not None)
         df = d.df
         exp = expected_days(entry, zone, idx, nan_pos)
         counts = getattr(d, "_verif_counts", None)
         tcells = cells(df["temperature"])
         seen = 0
         last = max(k for k in exp)
-        offhour_subhourly = z3.BoolVal(entry == "series-06" and feed != "60")
+        offhour_subhourly = z3.BoolVal(entry.startswith("series-06") and feed != "60")
         for t, val in zip(df.index, tcells):
             if t not in exp:
                 continue
@@ -233,7 +239,7 @@ def run_case(case: Case, name: str):
                 case.regime("23-hour day")
             if len(allp) * (idx[1] - idx[0]) == pd.Timedelta(hours=25):
                 case.regime("25-hour day")
-            if entry == "series-06":
+            if entry.startswith("series-06"):
                 case.regime("meter read at 06:00 (its own 24-hour day)")
         case.prove(p, seen >= days - 1, "every complete meter day of the span has a temperature row", replay=rp)
         case.prove(p, counts is not None, "the sufficiency test received the per-day counts", replay=rp)
